@@ -126,6 +126,8 @@ def check(case):
         extra.append("--logging-filter=%s" % cfg["logging_filter"])
     from ..harness import make_config
     config = make_config(cfg, extra_args=extra)
+    if cfg.get("continue_after_failed"):
+        res.label("continue-after-failed-step")
     if case.get("relevel") and cap["log"]:
         res.label("step-changes-root-logger-level")
     if case.get("store_all"):
@@ -262,6 +264,8 @@ def check(case):
             if status in ("failed", "error", "hook_error"):
                 if idx > 0:
                     failing_not_first = True
+                if cfg.get("continue_after_failed") and any(x in ("failed", "error") for x in statuses[:idx]):
+                    res.label("continue-after-failed-step:second-failure")
                 objs = by_name.get(name) or []
                 if len(objs) == 1:
                     mstep = list(objs[0].all_steps)[idx]
@@ -469,6 +473,11 @@ def random_case(draw):
                  and not it["steps"][-1]["o"].startswith("<")]
         if plain:
             case["relevel"] = [draw(st.integers(0, len(plain) - 1)), "DEBUG"]
+    # the documented switch Scenario.continue_after_failed_step: later failing steps report all output so far
+    outs = set(s["o"] for it in prog["features"][0]["items"] for sub in (it["items"] if it["k"] == "r" else [it])
+               for s in sub["steps"])
+    if outs <= set(["pass", "fail", "raise", "convert"]) and draw(st.integers(0, 2)) == 0:
+        prog["cfg"]["continue_after_failed"] = True
     # step-hook faults
     if draw(st.integers(0, 4)) == 0:
         prog["hook_faults"] = [[draw(st.integers(0, 10000)), draw(st.sampled_from(["Exception", "AssertionError"]))]]
@@ -498,7 +507,7 @@ def explore(rec):
 def required_labels(tier):
     return ["capture:%d%d%d" % (a, b, c) for a in (0, 1) for b in (0, 1) for c in (0, 1)] + \
            ["hook-emit", "failing-not-first", "step-hook-fault", "logging-level/filter", "setup_logging-in-before_all", "@capture-decorated-hooks", "log-flood>=999", "interrupt", "nested-steps", "cli", "cli:default-before_all",
-            "step-changes-root-logger-level"]
+            "step-changes-root-logger-level", "continue-after-failed-step:second-failure"]
 
 
 KNOWN_PREDICATES = {}
@@ -506,3 +515,4 @@ KNOWN_PREDICATES = {}
 
 RULE = RULE + " " + ('The logging level may be re-configured in before_all with context.config.setup_logging(level=...) (DEBUG..ERROR records).')
 RULE = RULE + " " + ('In a quarter of the log-capturing cases the last step of one scenario sets the root logger to DEBUG and does not put it back: the level observed after the scenario is the one before it.')
+RULE = RULE + " " + ('A third of the cases with pass/fail/raise/convert outcomes only switch Scenario.continue_after_failed_step on: the report of every later failing step still holds all output of the scenario so far.')
